@@ -26,9 +26,9 @@ add("C09", "jaxpr2smt",
     "floats as reals (float32 rounding outside), ints unbounded; probe nodes with arithmetic step functions; jaxpr taken as the meaning of jitted code (XLA not examined); instance family enumerated, not quantified",
     "DESIGN.md §6 C09")
 
-add("C06", "jaxpr2smt",
+add("C06", "jaxpr2smt+pysym",
     "bounded symbolic execution of the jaxpr of Graph.run/reset/step with symbolic run masks; step-function occurrences recorded with their enclosing cond predicates; z3 decides guard <=> run mask and seq/ts/eps handed to the step; replay with a host-side io_callback counter on the real code",
-    "Compiled runtime only (so far): for every state and every run-mask/seq assignment of the enumerated tiny instances (3 supergraph modes) each non-supervisor slot executes the step function iff its mask is set, once, with the slot's seq/ts; the supervisor's step runs once in run(), iff step!=0 in step(), never in reset() or when overridden. The threaded-runtime clause is added by engine A (see evidence for whether it ran).",
+    "Compiled runtime: for every state and every run-mask/seq assignment of the enumerated tiny instances (3 supergraph modes) each non-supervisor slot executes the step function iff its mask is set, once, with the slot's seq/ts; the supervisor's step runs once in run(), iff step!=0 in step(), never in reset() or when overridden. Threaded runtime (engine A on the real push_step/_async_step/async_step/_Synchronizer._async_step/run_supervisor): every fired tick runs the step function exactly once with its seq, state threads from one execution to the next, the supervisor's runs once without and zero times with override.",
     "0<=step<=max_step; effects counted per jaxpr occurrence under lax.cond semantics (un-vmapped); user step = arbitrary deterministic function; instances enumerated",
     "DESIGN.md §6 C06")
 
@@ -85,6 +85,12 @@ add("C03", "pysym+jaxpr2smt",
     "From every state satisfying the stated representation invariant (queue lengths <= 3(4), all blocking x skip x jitter policies, 6(12) rate pairs) each handler re-establishes the invariant and: receive times are FIFO and causal up to the 1 us rounding grid; messages are paired with their delays in order; non-blocking selection takes exactly the arrived prefix (LATEST/BUFFER, skip ties) and never before a strictly later arrival is known; blocking steps take adjacent disjoint runs of sender ticks; ts_max/selection pop exactly what was announced, seq_in = connection tick; ticks gap-free. Exact causality fails by <= 0.5 us: known finding K1.",
     "simulated clock only; INV as listed in the evidence; floats as reals with round-half-up on the 1 us grid; phases on the grid; composition of the one-step lemmas into whole-episode statements is an induction argument (DESIGN.md), not a solver result",
     "DESIGN.md §6 C03")
+
+add("C04", "pysym",
+    "bounded symbolic execution of the unmodified push_scheduled_ts/push_phase_shift/push_step of _AsyncNodeWrapper over consecutive ticks on z3-backed proxies (symbolic phase, delays, blocking arrivals); the timing law is stated independently in max-form as z3 terms and proved equal on every feasible path; counterexamples replayed with python floats on the unpatched handlers",
+    "For ticks 0..2(3), rates {10,13}({3,10,13,50}), 0-2 blocking inputs, both scheduling modes and advance settings, for every phase, every computation delay (incl. overruns) and every blocking arrival time: scheduled time = k/rate+phase on the 1us grid; start_k = max(blocking arrivals, end of previous step[, scheduled_k + drift_k]); end_k = start_k + delay_k is what consumers are told; FREQUENCY drift accumulates overruns and keeps consecutive starts >= 1/rate - 1us apart; PHASE returns to the grid; never before the scheduled time unless advance with only blocking inputs; no overlap.",
+    "simulated clock; floats as reals; round-half-up on the 1us grid; phase on the grid; the delivery clause (recv = round6(max(end+d, prev))) is C03's",
+    "DESIGN.md §6 C04")
 
 def main():
     checks = []
